@@ -87,7 +87,7 @@ def check(case):
     else:
         obj = call('construct', make_method, dotted, case['args'])
     for n, v in case.get('set', {}).items():
-        setattr(obj, n, v)
+        setattr(obj, n, obj if v == '$self' else v)
     verify(obj, dotted, 'before')
     if case.get('roundtrip') and not case.get('set'):
         if dotted == PROPS:
@@ -135,7 +135,7 @@ ARBITRARY = st.one_of(st.none(), st.integers(-5, 2**70), st.text(max_size=5),
                       S.struct_times(), S.datetimes(), S.table_decimals(),
                       st.binary(max_size=4).map(bytearray),
                       st.frozensets(st.integers(0, 3), max_size=2).map(set),
-                      st.just(canon.Opaque()))
+                      st.just(canon.Opaque()), st.just('$self'))
 
 
 def cases_strategy(tier):
@@ -185,6 +185,11 @@ def sweep(tier, shard, nshards):
                         'set': {f.name: ('t%d' % i, i) for i, f in enumerate(m.fields)}})
             out.append({'cls': m.dotted, 'args': args, 'roundtrip': False,
                         'set': {f.name: () for f in m.fields}})
+            # self-reference: the attribute value is the very object being iterated
+            out.append({'cls': m.dotted, 'args': args, 'roundtrip': False,
+                        'set': {m.fields[0].name: '$self'}})
+            out.append({'cls': m.dotted, 'args': args, 'roundtrip': False,
+                        'set': {m.fields[-1].name: '$self'}})
     import datetime
     pv = {n: ('p%d' % i if w == 'shortstr' else 1 + i % 2 if w == 'octet' else
               {'h': i} if w == 'table' else
@@ -204,6 +209,13 @@ COMPONENTS = [
               bulk=optchild.make_bulk('C19', ['all-classes'], flags=('-O',)),
               distinct_by_construction=True, shards={'quick': 1, 'thorough': 1},
               describe='the all-classes sweep in a child interpreter started with -O'),
+    Component('preludes', optchild.flagged('C19', check),
+              bulk=optchild.make_bulk('C19', ['all-classes'], flags=('',),
+                                      preludes=('bases', 'subclass')),
+              distinct_by_construction=True, shards={'quick': 1, 'thorough': 1},
+              describe='the same sweep in child interpreters after an application-style '
+                       'prelude: accessors called on the abstract bases first; '
+                       'application subclasses of every exception / frame class'),
     Component('random', check, strategy=cases_strategy, nontrivial=nontrivial,
               classes=classes, budget={'quick': 13000, 'thorough': 650000},
               describe='random values, random setattr, optional round trip'),
